@@ -11,8 +11,7 @@ RULE = ("TLC enumerates configurations (9 sets of 1-3 training conditions: data 
 def run(ctx):
     ctx.mc("MC_Training", workers=2, note="reference loop invariants: each condition once per step with the step index, validation stutters on learnable state, adaptive weights never decrease, lr schedule")
     if ctx.replay:
-        scen = [json.load(open(ctx.replay))["trace"]["scenario"]]
-        scen[0].pop("tid", None)
+        scen = ctx.replay_scenarios()
     else:
         scen = ctx.gen("Gen_C07", "Gen_C07", timeout=900)
         if ctx.quick:            # a seeded random sample (a fixed stride aliases with the enumeration order of the factors)
